@@ -29,12 +29,12 @@ def seeded_summary():
     r3 = [j for j in ms if j["id"][-1] in "ef"]
     r4 = [j for j in ms if j["id"][-1] in "gh"]
     r5 = [j for j in ms if j["id"][-1] in "ij"]
-    r6 = [j for j in ms if j["id"][-1] in "kl"]
+    r6 = [j for j in ms if j["id"][-1] in "klmn"]
     def nm(r):
         return len([j for j in r if j["id"] in missed])
     return ("%d kept mutants: %d from the first round (ids -a/-b, %d missed at first), %d from the second (ids -c/-d, %d missed at first; "
             "their authors were told which sites the first round had used), %d from the third (ids -e/-f, %d missed at first; told the sites "
-            "of both earlier rounds), %d from the fourth (ids -g/-h, %d missed at first), %d from the fifth (ids -i/-j, %d missed at first), %d from a sixth, partial round (ids -k/-l, ten properties, %d missed at first). "
+            "of both earlier rounds), %d from the fourth (ids -g/-h, %d missed at first), %d from the fifth (ids -i/-j, %d missed at first), %d from the sixth (ids -k/-l for ten properties, -m/-n for the other ten; %d missed at first). "
             "Not detected by any current check: %s. Detected only by the check of another property than the one the change was written against: %s. "
             "All others are detected by the current check of their property. Missed by the check as it stood when the mutant arrived: %s."
             % (len(ms), len(r1), nm(r1), len(r2), nm(r2), len(r3), nm(r3), len(r4), nm(r4), len(r5), nm(r5), len(r6), nm(r6), ", ".join(undetected) or "none", ", ".join(cross) or "none", ", ".join(missed)))
